@@ -63,3 +63,492 @@ Section Proofs.
   Lemma k_get_pure : pure_k k_get.
   Proof. intros x x' a H; inversion H; reflexivity. Qed.
 End Proofs.
+
+(* ====================================================================================================
+   Lens laws.  Layout: list facts; the one-level lens (child / plug) and its four laws; the
+   path-level laws by induction on the path; instances for put / put_scalar / clear_at.
+   ==================================================================================================== *)
+From KV Require Import Yaml.FnsSpec.
+
+Ltac inv H := inversion H; subst; clear H.
+
+(* ---------- association lists ---------- *)
+Lemma find_field_set_first_same name y kvs x :
+  find_field name kvs = Some x -> find_field name (set_first name y kvs) = Some y.
+Proof.
+  induction kvs as [|[k v] t IH]; cbn; intros H; [discriminate|].
+  destruct (String.eqb k name) eqn:E; cbn; rewrite E; auto.
+Qed.
+
+Lemma find_field_set_first_other a b y kvs :
+  a <> b -> find_field b (set_first a y kvs) = find_field b kvs.
+Proof.
+  intros Hab. induction kvs as [|[k v] t IH]; cbn; [reflexivity|].
+  destruct (String.eqb k a) eqn:E; cbn.
+  - apply String.eqb_eq in E; subst k.
+    destruct (String.eqb a b) eqn:E2; [apply String.eqb_eq in E2; contradiction|reflexivity].
+  - destruct (String.eqb k b); auto.
+Qed.
+
+Lemma set_first_set_first name y z kvs :
+  set_first name z (set_first name y kvs) = set_first name z kvs.
+Proof.
+  induction kvs as [|[k v] t IH]; cbn; [reflexivity|].
+  destruct (String.eqb k name) eqn:E; cbn; rewrite E; [reflexivity|now rewrite IH].
+Qed.
+
+Lemma find_field_app_same name y kvs :
+  find_field name kvs = None -> find_field name (kvs ++ [(name, y)]) = Some y.
+Proof.
+  induction kvs as [|[k v] t IH]; cbn; intros H.
+  - now rewrite String.eqb_refl.
+  - destruct (String.eqb k name); [discriminate|auto].
+Qed.
+
+Lemma find_field_app_other a b y kvs :
+  a <> b -> find_field b (kvs ++ [(a, y)]) = find_field b kvs.
+Proof.
+  intros Hab. induction kvs as [|[k v] t IH]; cbn.
+  - destruct (String.eqb a b) eqn:E; [apply String.eqb_eq in E; contradiction|reflexivity].
+  - destruct (String.eqb k b); auto.
+Qed.
+
+Lemma set_first_app_same name y z kvs :
+  find_field name kvs = None -> set_first name z (kvs ++ [(name, y)]) = (kvs ++ [(name, z)])%list.
+Proof.
+  induction kvs as [|[k v] t IH]; cbn; intros H.
+  - now rewrite String.eqb_refl.
+  - destruct (String.eqb k name); [discriminate|now rewrite IH].
+Qed.
+
+Lemma remove_first_absent name kvs :
+  find_field name kvs = None -> remove_first name kvs = kvs.
+Proof.
+  induction kvs as [|[k v] t IH]; cbn; intros H; [reflexivity|].
+  destruct (String.eqb k name); [discriminate|now rewrite IH].
+Qed.
+
+Lemma find_field_remove_first_other a b kvs :
+  a <> b -> find_field b (remove_first a kvs) = find_field b kvs.
+Proof.
+  intros Hab. induction kvs as [|[k v] t IH]; cbn; [reflexivity|].
+  destruct (String.eqb k a) eqn:E; cbn.
+  - apply String.eqb_eq in E; subst k.
+    destruct (String.eqb a b) eqn:E2; [apply String.eqb_eq in E2; contradiction|reflexivity].
+  - destruct (String.eqb k b); auto.
+Qed.
+
+(* ---------- positional lists ---------- *)
+Lemma length_replace_nth {A} i (y : A) l : List.length (replace_nth i y l) = List.length l.
+Proof. revert i; induction l as [|h t IH]; intros [|i]; cbn; auto. Qed.
+
+Lemma nth_error_replace_nth_same {A} (l : list A) i x y :
+  nth_error l i = Some x -> nth_error (replace_nth i y l) i = Some y.
+Proof. revert i; induction l as [|h t IH]; intros [|i]; cbn; intros H; try discriminate; auto. Qed.
+
+Lemma nth_error_replace_nth_other {A} (l : list A) i j y :
+  i <> j -> nth_error (replace_nth i y l) j = nth_error l j.
+Proof.
+  revert i j; induction l as [|h t IH]; intros [|i] [|j] H; cbn; auto; try congruence.
+Qed.
+
+Lemma replace_nth_replace_nth {A} (l : list A) i y z :
+  replace_nth i z (replace_nth i y l) = replace_nth i z l.
+Proof. revert i; induction l as [|h t IH]; intros [|i]; cbn; auto. now rewrite IH. Qed.
+
+Lemma nth_error_app_last {A} (l : list A) y : nth_error (l ++ [y]) (List.length l) = Some y.
+Proof. induction l; cbn; auto. Qed.
+
+Lemma replace_nth_app_last {A} (l : list A) y z : replace_nth (List.length l) z (l ++ [y]) = (l ++ [z])%list.
+Proof. induction l; cbn; auto. now rewrite IHl. Qed.
+
+Lemma nth_error_app_old {A} (l : list A) y j x : nth_error l j = Some x -> nth_error (l ++ [y]) j = Some x.
+Proof. revert j; induction l as [|h t IH]; intros [|j]; cbn; intros H; try discriminate; auto. Qed.
+
+Lemma find_index_some {A} (f : A -> bool) l i :
+  find_index f l = Some i -> exists e, nth_error l i = Some e /\ f e = true.
+Proof.
+  revert i; induction l as [|h t IH]; cbn; intros i H; [discriminate|].
+  destruct (f h) eqn:E.
+  - inv H. exists h; auto.
+  - destruct (find_index f t) as [j|] eqn:F; cbn in H; inv H.
+    destruct (IH j eq_refl) as [e [H1 H2]]. exists e; auto.
+Qed.
+
+Lemma find_index_replace_nth_same {A} (f : A -> bool) l i y :
+  find_index f l = Some i -> f y = true -> find_index f (replace_nth i y l) = Some i.
+Proof.
+  revert i; induction l as [|h t IH]; cbn; intros i H Hy; [discriminate|].
+  destruct (f h) eqn:E.
+  - inv H. cbn. now rewrite Hy.
+  - destruct (find_index f t) as [j|] eqn:F; cbn in H; inv H.
+    cbn. rewrite E. now rewrite (IH j eq_refl Hy).
+Qed.
+
+Lemma find_index_replace_nth_other {A} (g : A -> bool) l i x y :
+  nth_error l i = Some x -> g x = false -> g y = false ->
+  find_index g (replace_nth i y l) = find_index g l.
+Proof.
+  revert i; induction l as [|h t IH]; intros [|i]; cbn; intros H Hx Hy; try discriminate.
+  - inv H. now rewrite Hx, Hy.
+  - destruct (g h); auto. now rewrite (IH i H Hx Hy).
+Qed.
+
+Lemma find_index_app_same {A} (f : A -> bool) l y :
+  find_index f l = None -> f y = true -> find_index f (l ++ [y]) = Some (List.length l).
+Proof.
+  induction l as [|h t IH]; cbn; intros H Hy.
+  - now rewrite Hy.
+  - destruct (f h); [discriminate|].
+    destruct (find_index f t) eqn:F; cbn in H; [discriminate|]. now rewrite IH.
+Qed.
+
+Lemma find_index_app_other {A} (g : A -> bool) l y :
+  g y = false -> find_index g (l ++ [y]) = find_index g l.
+Proof.
+  intros Hy. induction l as [|h t IH]; cbn.
+  - now rewrite Hy.
+  - destruct (g h); auto. now rewrite IH.
+Qed.
+
+Lemma find_index_lt {A} (f : A -> bool) l i : find_index f l = Some i -> i < List.length l.
+Proof.
+  intros H. destruct (find_index_some _ _ _ H) as [e [H1 _]].
+  apply nth_error_Some. congruence.
+Qed.
+
+(* ---------- selectors ---------- *)
+Lemma sel_match_excl nm v w e : sel_match nm v e = true -> v <> w -> sel_match nm w e = false.
+Proof.
+  unfold sel_match. intros H Hvw.
+  destruct (String.eqb nm "").
+  - apply String.eqb_eq in H. apply String.eqb_neq. congruence.
+  - destruct e as [| kvs |]; auto.
+    destruct (find_field nm kvs); auto.
+    apply String.eqb_eq in H. apply String.eqb_neq. congruence.
+Qed.
+
+Lemma sel_match_sel_new nm v : sel_match nm v (sel_new nm v) = true.
+Proof.
+  unfold sel_match, sel_new. destruct (String.eqb nm "") eqn:E; cbn.
+  - apply String.eqb_refl.
+  - rewrite String.eqb_refl. apply String.eqb_refl.
+Qed.
+
+(* ---------- the one-level lens: child / plug ---------- *)
+(* what the value written back must satisfy for the part to select it again *)
+Definition keeps (p : part) (y : node) : Prop :=
+  match p with PSel nm v => sel_match nm v y = true | _ => True end.
+
+Lemma plug_child p n x : child p n = Some x -> plug p n x = n.
+Proof.
+  destruct p, n; cbn; intros H; try discriminate.
+  - now rewrite set_first_same.
+  - now rewrite replace_nth_same.
+  - destruct es; [discriminate|]. now rewrite replace_nth_same.
+  - destruct (find_index (sel_match nm v) es); [|discriminate]. now rewrite replace_nth_same.
+Qed.
+
+Lemma child_plug p n x y : child p n = Some x -> keeps p y -> child p (plug p n y) = Some y.
+Proof.
+  destruct p, n; cbn; intros H K; try discriminate.
+  - eapply find_field_set_first_same; eauto.
+  - eapply nth_error_replace_nth_same; eauto.
+  - destruct es as [|e es]; [discriminate|].
+    rewrite length_replace_nth.
+    destruct (replace_nth (List.length (e :: es) - 1) y (e :: es)) eqn:R.
+    + apply (f_equal (@List.length node)) in R. rewrite length_replace_nth in R. discriminate.
+    + rewrite <- R. eapply nth_error_replace_nth_same; eauto.
+  - destruct (find_index (sel_match nm v) es) as [i|] eqn:F; [|discriminate].
+    cbn. rewrite (find_index_replace_nth_same _ _ _ _ F K).
+    eapply nth_error_replace_nth_same; eauto.
+Qed.
+
+Lemma plug_plug p n x y z : child p n = Some x -> keeps p y -> plug p (plug p n y) z = plug p n z.
+Proof.
+  destruct p, n; cbn; intros H K; try discriminate.
+  - now rewrite set_first_set_first.
+  - now rewrite replace_nth_replace_nth.
+  - now rewrite length_replace_nth, replace_nth_replace_nth.
+  - destruct (find_index (sel_match nm v) es) as [i|] eqn:F; [|discriminate].
+    cbn. rewrite (find_index_replace_nth_same _ _ _ _ F K).
+    now rewrite replace_nth_replace_nth.
+Qed.
+
+Lemma child_plug_apart p q n x y :
+  apart p q -> child p n = Some x -> keeps p y -> child q (plug p n y) = child q n.
+Proof.
+  intros Hpq. destruct Hpq as [a b Hab|i j Hij|nm v w Hvw]; destruct n; cbn; intros H K; try discriminate.
+  - now apply find_field_set_first_other.
+  - now apply nth_error_replace_nth_other.
+  - destruct (find_index (sel_match nm v) es) as [i|] eqn:F; [|discriminate].
+    cbn.
+    destruct (find_index_some _ _ _ F) as [e [He Me]].
+    assert (Hx : x = e) by congruence. subst e.
+    rewrite (find_index_replace_nth_other (sel_match nm w) es i x y He
+               (sel_match_excl _ _ _ _ Me Hvw) (sel_match_excl _ _ _ _ K Hvw)).
+    destruct (find_index (sel_match nm w) es) as [j|] eqn:G; [|reflexivity].
+    apply nth_error_replace_nth_other.
+    intros ->. destruct (find_index_some _ _ _ G) as [e' [He' Me']].
+    assert (e' = x) by congruence. subst e'.
+    rewrite (sel_match_excl _ _ _ _ Me Hvw) in Me'. discriminate.
+Qed.
+
+Lemma child_sel_matches nm v n x : child (PSel nm v) n = Some x -> sel_match nm v x = true.
+Proof.
+  destruct n; cbn; try discriminate.
+  destruct (find_index (sel_match nm v) es) as [i|] eqn:F; [|discriminate].
+  intros H. destruct (find_index_some _ _ _ F) as [e [He Me]]. congruence.
+Qed.
+
+(* ---------- walk, one step ---------- *)
+Lemma walk_found {A} cr p ps (k : node -> res (node * A)) n x :
+  child p n = Some x ->
+  walk cr (p :: ps) k n = (do r <- walk cr ps k x; Ok (plug p n (fst r), snd r)).
+Proof.
+  destruct p, n; cbn; intros H; try discriminate.
+  - now rewrite H.
+  - now rewrite H.
+  - destruct es as [|e es]; [discriminate|]. cbn in H |- *. now rewrite H.
+  - destruct (find_index (sel_match nm v) es) as [i|]; [|discriminate]. now rewrite H.
+Qed.
+
+Lemma lookup_found p qs n x : child p n = Some x -> lookup (p :: qs) n = lookup qs x.
+Proof.
+  intros H. unfold lookup. rewrite (walk_found _ _ _ _ _ _ H).
+  destruct (walk None qs k_get x) as [[d r]| | |]; reflexivity.
+Qed.
+
+Lemma no_null_child p ps n x :
+  no_null_path (p :: ps) n = true -> child p n = Some x -> no_null_path ps x = true.
+Proof. cbn. intros H C. rewrite C in H. apply andb_true_iff in H. tauto. Qed.
+
+Lemma no_null_here ps n : no_null_path ps n = true -> is_null n = false.
+Proof. destruct ps; cbn; intros H; apply andb_true_iff in H; destruct H as [H _]; now apply negb_true_iff in H. Qed.
+
+(* A walk along a NON-EMPTY path never changes the constructor class of the node it starts from,
+   and leaves a scalar untouched (so [node_value] is preserved at every interior position). *)
+Lemma walk_nonempty_shape {A} cr p ps (k : node -> res (node * A)) n n' r :
+  walk cr (p :: ps) k n = Ok (n', r) ->
+  match n with
+  | Scalar _ _ _ => n' = n
+  | Map _ => is_map n' = true
+  | Seq _ => is_seq n' = true
+  end.
+Proof.
+  intros H. destruct p, n; cbn in H;
+    repeat match type of H with
+           | Err = Ok _ => discriminate
+           | Panic = Ok _ => discriminate
+           | Ok _ = Ok _ => inv H; try reflexivity
+           | context [bind ?c _] => destruct c as [[? ?]| | |] eqn:?; cbn in H
+           | context [match ?c with _ => _ end] => destruct c eqn:?; cbn in H
+           | context [if ?c then _ else _] => destruct c eqn:?; cbn in H
+           end; try reflexivity; try discriminate.
+Qed.
+
+Lemma walk_nonempty_value {A} cr p ps (k : node -> res (node * A)) n n' r :
+  walk cr (p :: ps) k n = Ok (n', r) -> node_value n' = node_value n.
+Proof.
+  intros H. apply walk_nonempty_shape in H. destruct n; subst; auto; destruct n'; try discriminate; auto.
+Qed.
+
+Lemma stable_tail {A} p ps (k : node -> res (node * A)) : stable (p :: ps) k -> stable ps k.
+Proof. destruct p; cbn; tauto. Qed.
+
+(* (H1) at work: a selector that matched the element before the walk still matches it afterwards *)
+Lemma sel_stable {A} cr ps (k : node -> res (node * A)) e e' r nm v :
+  walk cr ps k e = Ok (e', r) -> sel_match nm v e = true -> stable_after nm v ps k ->
+  sel_match nm v e' = true.
+Proof.
+  intros W M S. destruct ps as [|p rest].
+  - cbn in W. destruct (k e) as [[y a]| | |] eqn:K; cbn in W; inv W. eapply S; eauto.
+  - unfold sel_match in *. destruct (String.eqb nm "") eqn:E.
+    + now rewrite (walk_nonempty_value _ _ _ _ _ _ _ W).
+    + destruct e as [|kvs|]; try discriminate.
+      destruct (find_field nm kvs) as [x|] eqn:Fx; [|discriminate].
+      destruct p; cbn in W; try discriminate.
+      destruct (find_field k0 kvs) as [y|] eqn:Fy.
+      * destruct (walk cr rest k y) as [[y' r']| | |] eqn:W'; cbn in W; inv W.
+        destruct (String.eqb_spec k0 nm) as [->|Hne].
+        -- rewrite (find_field_set_first_same _ _ _ _ Fy).
+           assert (y = x) by congruence; subst y.
+           destruct rest as [|p2 rest'].
+           ++ cbn in W'. destruct (k x) as [[z a]| | |] eqn:K; cbn in W'; inv W'.
+              cbn in S. rewrite (S eq_refl (proj1 (String.eqb_neq _ _) E) _ _ _ K). exact M.
+           ++ now rewrite (walk_nonempty_value _ _ _ _ _ _ _ W').
+        -- rewrite (find_field_set_first_other _ _ _ _ Hne), Fx. exact M.
+      * assert (Hne : k0 <> nm) by (intros ->; congruence).
+        destruct cr as [leaf|].
+        -- destruct (walk (Some leaf) rest k _) as [[y' r']| | |] eqn:W'; cbn in W; inv W.
+           rewrite (find_field_app_other _ _ _ _ Hne), Fx. exact M.
+        -- inv W. rewrite Fx. exact M.
+Qed.
+
+Lemma keeps_after_walk {A} cr p ps (k : node -> res (node * A)) n x x' r :
+  child p n = Some x -> walk cr ps k x = Ok (x', r) -> stable (p :: ps) k -> keeps p x'.
+Proof.
+  intros C W S. destruct p; cbn; auto.
+  eapply sel_stable; eauto.
+  - eapply child_sel_matches; eauto.
+  - cbn in S. tauto.
+Qed.
+
+(* freshly created nodes contain no null *)
+Lemma no_null_empty_of ps kd : no_null_path ps (empty_of kd) = true.
+Proof.
+  destruct ps as [|p ps]; destruct kd; try reflexivity; destruct p; try reflexivity;
+    cbn; destruct i; reflexivity.
+Qed.
+
+Lemma no_null_sel_new ps nm v : no_null_path ps (sel_new nm v) = true.
+Proof.
+  unfold sel_new. destruct (String.eqb nm "").
+  - destruct ps as [|p ps]; [reflexivity|destruct p; reflexivity].
+  - destruct ps as [|p ps]; [reflexivity|]. destruct p; try reflexivity.
+    cbn. destruct (String.eqb nm k); [|reflexivity].
+    destruct ps as [|p ps]; [reflexivity|destruct p; reflexivity].
+Qed.
+
+(* inversion of a successful step whose child is absent *)
+Lemma walk_missing {A} cr p ps (k : node -> res (node * A)) n n' r :
+  child p n = None -> walk cr (p :: ps) k n = Ok (n', r) ->
+  (n' = n /\ r = None)
+  \/ (exists name kvs leaf y, p = PKey name /\ n = Map kvs /\ cr = Some leaf /\ find_field name kvs = None /\
+        walk cr ps k (empty_of (kind_before (hd_error ps) leaf)) = Ok (y, r) /\ n' = Map (kvs ++ [(name, y)]))
+  \/ (exists nm v es leaf y, p = PSel nm v /\ n = Seq es /\ cr = Some leaf /\
+        find_index (sel_match nm v) es = None /\
+        walk cr ps k (sel_new nm v) = Ok (y, r) /\ n' = Seq (es ++ [y]))
+  \/ (exists nm v leaf y, p = PSel nm v /\ is_null n = true /\ cr = Some leaf /\
+        walk cr ps k (sel_new nm v) = Ok (y, r) /\ n' = n).
+Proof.
+  intros C H. destruct p; try (cbn in H; discriminate).
+  - (* PKey *) destruct n as [t s v|kvs|es]; cbn in H, C.
+    + destruct t; inv H; auto.
+    + rewrite C in H. destruct cr as [leaf|]; [|inv H; auto].
+      destruct (walk (Some leaf) ps k _) as [[y r']| | |] eqn:W; cbn in H; inv H.
+      right; left. exists k0, kvs, leaf, y. auto 10.
+    + discriminate.
+  - (* PIdx *) destruct n as [t s v|kvs|es]; cbn in H, C.
+    + destruct t; inv H; auto.
+    + discriminate.
+    + rewrite C in H. inv H; auto.
+  - (* PLast *) destruct n as [t s v|kvs|es]; cbn in H, C.
+    + destruct t; inv H.
+    + discriminate.
+    + destruct es as [|e es]; [discriminate|]. cbn in C, H. rewrite C in H. discriminate.
+  - (* PSel *) destruct n as [t s v0|kvs|es]; cbn in H, C.
+    + destruct t; try discriminate.
+      destruct cr as [leaf|]; [|inv H; auto].
+      destruct (walk (Some leaf) ps k _) as [[y r']| | |] eqn:W; cbn in H; inv H.
+      right; right; right. exists nm, v, leaf, y. auto 10.
+    + discriminate.
+    + destruct (find_index (sel_match nm v) es) as [i|] eqn:F.
+      * rewrite C in H. discriminate.
+      * destruct cr as [leaf|]; [|inv H; auto].
+        destruct (walk (Some leaf) ps k _) as [[y r']| | |] eqn:W; cbn in H; inv H.
+        right; right; left. exists nm, v, es, leaf, y. auto 10.
+Qed.
+
+Lemma walk_get_found p ps n y z :
+  child p n = Some y -> walk None ps k_get y = Ok (y, Some z) ->
+  walk None (p :: ps) k_get n = Ok (n, Some z).
+Proof. intros C W. rewrite (walk_found _ _ _ _ _ _ C), W. cbn. now rewrite (plug_child _ _ _ C). Qed.
+
+(* ---------- PUT-GET ---------- *)
+Lemma walk_put_get {A} cr ps (k : node -> res (node * A)) :
+  stable ps k ->
+  forall n n' a, no_null_path ps n = true -> walk cr ps k n = Ok (n', Some a) ->
+  exists x x', k x = Ok (x', a) /\ walk None ps k_get n' = Ok (n', Some x').
+Proof.
+  induction ps as [|p ps IH]; intros S n n' a NN H.
+  - cbn in H. destruct (k n) as [[x' a']| | |] eqn:K; cbn in H; inv H.
+    exists n, n'. auto.
+  - pose proof (stable_tail _ _ _ S) as S'.
+    destruct (child p n) as [x|] eqn:C.
+    + rewrite (walk_found _ _ _ _ _ _ C) in H.
+      destruct (walk cr ps k x) as [[x' r']| | |] eqn:W; cbn in H; inv H.
+      destruct (IH S' _ _ _ (no_null_child _ _ _ _ NN C) W) as [x0 [x0' [K G]]].
+      exists x0, x0'. split; [exact K|].
+      eapply walk_get_found; [|exact G].
+      eapply child_plug; eauto. eapply keeps_after_walk; eauto.
+    + destruct (walk_missing _ _ _ _ _ _ _ C H) as
+        [[_ Hr]|[(name & kvs & leaf & y & -> & -> & -> & F & W & ->)
+                |[(nm & v & es & leaf & y & -> & -> & -> & F & W & ->)
+                 |(nm & v & leaf & y & -> & N & _)]]].
+      * discriminate.
+      * destruct (IH S' _ _ _ (no_null_empty_of _ _) W) as [x0 [x0' [K G]]].
+        exists x0, x0'. split; [exact K|].
+        eapply walk_get_found; [|exact G]. cbn. now apply find_field_app_same.
+      * destruct (IH S' _ _ _ (no_null_sel_new _ _ _) W) as [x0 [x0' [K G]]].
+        exists x0, x0'. split; [exact K|].
+        eapply walk_get_found; [|exact G]. cbn.
+        assert (M : sel_match nm v y = true).
+        { eapply sel_stable; [exact W|apply sel_match_sel_new|]. cbn in S; tauto. }
+        rewrite (find_index_app_same _ _ _ F M). apply nth_error_app_last.
+      * apply no_null_here in NN. congruence.
+Qed.
+
+(* ---------- GET-PUT ---------- *)
+Lemma lookup_missing_not_found p ps n x : child p n = None -> lookup (p :: ps) n <> Ok (Some x).
+Proof.
+  intros C H. unfold lookup in H.
+  destruct (walk None (p :: ps) k_get n) as [[n' r]| | |] eqn:W; cbn in H; try discriminate.
+  destruct (walk_missing _ _ _ _ _ _ _ C W) as
+    [[_ ->]|[(? & ? & ? & ? & _ & _ & ? & _)|[(? & ? & ? & ? & ? & _ & _ & ? & _)|(? & ? & ? & ? & _ & _ & ? & _)]]];
+    discriminate.
+Qed.
+
+Lemma walk_get_put {A} cr ps (k : node -> res (node * A)) :
+  forall n x a, lookup ps n = Ok (Some x) -> k x = Ok (x, a) -> walk cr ps k n = Ok (n, Some a).
+Proof.
+  induction ps as [|p ps IH]; intros n x a L K.
+  - cbn in L. inv L. cbn. now rewrite K.
+  - destruct (child p n) as [y|] eqn:C.
+    + rewrite (lookup_found _ _ _ _ C) in L.
+      rewrite (walk_found _ _ _ _ _ _ C), (IH _ _ _ L K). cbn. now rewrite (plug_child _ _ _ C).
+    + exfalso. eapply lookup_missing_not_found; eauto.
+Qed.
+
+(* ---------- PUT-PUT (fusion) ---------- *)
+Lemma walk_fusion {A B} cr ps (k1 : node -> res (node * A)) (k2 : node -> res (node * B)) :
+  stable ps k1 ->
+  forall n n1 a1, no_null_path ps n = true -> walk cr ps k1 n = Ok (n1, Some a1) ->
+  walk cr ps k2 n1 = walk cr ps (kseq k1 k2) n.
+Proof.
+  induction ps as [|p ps IH]; intros S n n1 a1 NN H.
+  - cbn in H. destruct (k1 n) as [[x' a']| | |] eqn:K; cbn in H; inv H.
+    cbn. unfold kseq. now rewrite K.
+  - pose proof (stable_tail _ _ _ S) as S'.
+    destruct (child p n) as [x|] eqn:C.
+    + rewrite (walk_found _ _ _ _ _ _ C) in H.
+      destruct (walk cr ps k1 x) as [[x1 r1]| | |] eqn:W; cbn in H; inv H.
+      assert (Kp : keeps p x1) by (eapply keeps_after_walk; eauto).
+      rewrite (walk_found _ _ _ _ _ _ (child_plug _ _ _ _ C Kp)).
+      rewrite (walk_found _ _ _ _ _ _ C).
+      rewrite (IH S' _ _ _ (no_null_child _ _ _ _ NN C) W).
+      destruct (walk cr ps (kseq k1 k2) x) as [[z rz]| | |]; cbn; auto.
+      now rewrite (plug_plug _ _ _ _ _ C Kp).
+    + destruct (walk_missing _ _ _ _ _ _ _ C H) as
+        [[_ Hr]|[(name & kvs & leaf & y & -> & -> & -> & F & W & ->)
+                |[(nm & v & es & leaf & y & -> & -> & -> & F & W & ->)
+                 |(nm & v & leaf & y & -> & N & _)]]].
+      * discriminate.
+      * assert (C1 : child (PKey name) (Map (kvs ++ [(name, y)])) = Some y)
+          by (cbn; now apply find_field_app_same).
+        rewrite (walk_found _ _ _ _ _ _ C1).
+        rewrite (IH S' _ _ _ (no_null_empty_of _ _) W).
+        cbn. rewrite F.
+        destruct (walk (Some leaf) ps (kseq k1 k2) _) as [[z rz]| | |]; cbn; auto.
+        now rewrite (set_first_app_same _ _ _ _ F).
+      * assert (M : sel_match nm v y = true).
+        { eapply sel_stable; [exact W|apply sel_match_sel_new|]. cbn in S; tauto. }
+        assert (C1 : child (PSel nm v) (Seq (es ++ [y])) = Some y).
+        { cbn. rewrite (find_index_app_same _ _ _ F M). apply nth_error_app_last. }
+        rewrite (walk_found _ _ _ _ _ _ C1).
+        rewrite (IH S' _ _ _ (no_null_sel_new _ _ _) W).
+        cbn. rewrite F.
+        destruct (walk (Some leaf) ps (kseq k1 k2) _) as [[z rz]| | |]; cbn; auto.
+        rewrite (find_index_app_same _ _ _ F M). now rewrite replace_nth_app_last.
+      * apply no_null_here in NN. congruence.
+Qed.
